@@ -216,6 +216,9 @@ impl Prop for C08 {
     fn id(&self) -> &'static str {
         "C08"
     }
+    fn observes_units(&self) -> bool {
+        false
+    }
     fn rule(&self) -> String {
         "values: all reduced p/q with |p|<=60,q<=24 (thorough |p|<=200,q<=60); (p/q)*10^k for p,q<=12, both signs, k over a 21-point ladder in -40..40 (thorough every k in -40..40); 10^k+{-1,0,1} with and without fractional tails for k<=20; long exact decimals; each case = one value, bulk-formatted under every display spec limit x exponent_limit (quick 7x6 specs, thorough 20x15) with the continuation mark on, and with it off for the truncation clause. The printed text is re-read (own reader) and must be the value cut toward zero at its last digit, right sign, mark iff something non-zero was cut. evaluations counts (value,spec,mark-mode) triples; non-trivial = the value is not an integer of <= limit digits (something could be cut); distinct by construction (distinct reduced values x distinct specs)".into()
     }
